@@ -637,9 +637,9 @@ def refine_droplet(
     # determine the intensities outside and inside the droplet
     if vmin is None:
         # fall back to the default value if the droplet does not cover any support point
-        vmin = np.min(data_mask) if data_mask.size > 0 else 0.0
+        vmin = float(np.min(data_mask)) if data_mask.size > 0 else 0.0
     if vmax is None:
-        vmax = np.max(data_mask) if data_mask.size > 0 else 1.0
+        vmax = float(np.max(data_mask)) if data_mask.size > 0 else 1.0
     vrng = vmax - vmin
 
     if adjust_values:
